@@ -152,6 +152,9 @@ func Build(d *Dialect, st State, perm int) *schema.Schema {
 				cs = append(cs, col)
 			}
 			t.SetPrimaryKey(schema.NewPrimaryKey(cs...))
+			if perm >= 2 {
+				reverseParts(t.PrimaryKey)
+			}
 		}
 		idx := append([]Idx{}, a.Idx...)
 		sort.Slice(idx, func(i, j int) bool { return (idx[i].Name < idx[j].Name) != (perm >= 2) })
@@ -160,6 +163,9 @@ func Build(d *Dialect, st State, perm int) *schema.Schema {
 			for _, p := range x.Parts {
 				col, _ := t.Column(p.C)
 				ix.AddParts(&schema.IndexPart{C: col, Desc: p.Desc})
+			}
+			if perm >= 2 {
+				reverseParts(ix)
 			}
 			t.AddIndexes(ix)
 		}
@@ -182,6 +188,13 @@ func Build(d *Dialect, st State, perm int) *schema.Schema {
 		}
 	}
 	return s
+}
+
+// reverseParts stores the key parts in another slice order; their position in the key is IndexPart.SeqNo and stays as it is.
+func reverseParts(ix *schema.Index) {
+	for i, j := 0, len(ix.Parts)-1; i < j; i, j = i+1, j-1 {
+		ix.Parts[i], ix.Parts[j] = ix.Parts[j], ix.Parts[i]
+	}
 }
 
 func bits(k schema.ChangeKind, m map[schema.ChangeKind]string) []string {
